@@ -62,7 +62,9 @@ Requests == [f \in Fams |-> UNION { DivVectors[f][len] : len \in 2..(Bounds[f].m
 
 Bytes == {8, 16, 24, 48, 1000}       \* a row of the harness frames weighs 16 bytes (int64 rid + int64 label)
 
-Pres == {"head", "tail", "filter", "proj", "loc", "setidx", "concat"}
+\* ("setidx" - a source derived through set_index - is left out: such a source inherits the known set_index metadata
+\*  defect (C41 set_index:auto:count), every deviation downstream would be that defect seen again)
+Pres == {"head", "tail", "filter", "proj", "loc", "concat"}
 Args(f) == CASE f = "n"    -> [k: {"n"}, n: 1..Bounds[f].maxn]
              [] f = "nd"   -> [k: {"n"}, n: 1..Bounds[f].maxn, pre: Pres]
              [] f = "d"    -> [k: {"d"}, d: Requests[f], force: BOOLEAN]
